@@ -20,6 +20,68 @@ use crate::{
     xform_resolve_late_bound_type_initializer, xform_toposort_declarations,
 };
 
+/// Verification hook, compiled only with `--cfg ironplc_verif`: the stages record
+/// what they did (the declarations they saw, in order, and the problem codes they
+/// produced) so that a conformance harness can validate an analysis step by step.
+/// The events are JSON objects kept in a thread local list until drained.
+#[cfg(ironplc_verif)]
+pub mod verif_trace {
+    use ironplc_dsl::common::{DataTypeDeclarationKind, Library, LibraryElementKind};
+    use ironplc_dsl::diagnostic::Diagnostic;
+    use std::cell::RefCell;
+
+    thread_local! {
+        static EVENTS: RefCell<Vec<String>> = const { RefCell::new(Vec::new()) };
+    }
+
+    pub fn emit(event: String) {
+        EVENTS.with(|events| events.borrow_mut().push(event));
+    }
+
+    /// Returns and forgets the events recorded by the current thread.
+    pub fn drain() -> Vec<String> {
+        EVENTS.with(|events| events.borrow_mut().drain(..).collect())
+    }
+
+    fn name(element: &LibraryElementKind) -> String {
+        match element {
+            LibraryElementKind::DataTypeDeclaration(decl) => match decl {
+                DataTypeDeclarationKind::Enumeration(d) => d.type_name.to_string(),
+                DataTypeDeclarationKind::Subrange(d) => d.type_name.to_string(),
+                DataTypeDeclarationKind::Simple(d) => d.type_name.to_string(),
+                DataTypeDeclarationKind::Array(d) => d.type_name.to_string(),
+                DataTypeDeclarationKind::Structure(d) => d.type_name.to_string(),
+                DataTypeDeclarationKind::StructureInitialization(d) => d.type_name.to_string(),
+                DataTypeDeclarationKind::String(d) => d.type_name.to_string(),
+                DataTypeDeclarationKind::LateBound(d) => d.data_type_name.to_string(),
+            },
+            LibraryElementKind::FunctionDeclaration(d) => d.name.to_string(),
+            LibraryElementKind::FunctionBlockDeclaration(d) => d.name.to_string(),
+            LibraryElementKind::ProgramDeclaration(d) => d.name.to_string(),
+            LibraryElementKind::ConfigurationDeclaration(d) => d.name.to_string(),
+        }
+    }
+
+    /// The names of the declarations of the library, in order, as a JSON array.
+    pub fn names(library: &Library) -> String {
+        let names: Vec<String> = library
+            .elements
+            .iter()
+            .map(|e| format!("\"{}\"", name(e).to_uppercase()))
+            .collect();
+        format!("[{}]", names.join(","))
+    }
+
+    /// The problem codes of the diagnostics as a JSON array.
+    pub fn codes(diagnostics: &[Diagnostic]) -> String {
+        let codes: Vec<String> = diagnostics
+            .iter()
+            .map(|d| format!("\"{}\"", d.code))
+            .collect();
+        format!("[{}]", codes.join(","))
+    }
+}
+
 /// Analyze runs semantic analysis on the set of files as a self-contained and complete unit.
 ///
 /// Returns `Ok(Library)` if analysis succeeded (containing a possibly new library) that is
@@ -33,6 +95,8 @@ pub fn analyze(sources: &[&Library]) -> Result<(), Vec<Diagnostic>> {
             Label::span(span, "First location"),
         )]);
     }
+    #[cfg(ironplc_verif)]
+    verif_trace::emit(format!("{{\"ev\":\"analyze\",\"sources\":{}}}", sources.len()));
     let library = resolve_types(sources)?;
     let result = semantic(&library);
 
@@ -60,10 +124,42 @@ pub(crate) fn resolve_types(sources: &[&Library]) -> Result<Library, Vec<Diagnos
         xform_resolve_late_bound_type_initializer::apply,
     ];
 
+    #[cfg(ironplc_verif)]
+    {
+        verif_trace::emit(format!(
+            "{{\"ev\":\"concat\",\"decls\":{}}}",
+            verif_trace::names(&library)
+        ));
+        let stages = ["toposort", "data_decl", "expr_kind", "type_initializer"];
+        for (xform, stage) in xforms.iter().zip(stages) {
+            match xform(library) {
+                Ok(transformed) => {
+                    verif_trace::emit(format!(
+                        "{{\"ev\":\"xform\",\"stage\":\"{}\",\"ok\":true,\"decls\":{},\"codes\":[]}}",
+                        stage,
+                        verif_trace::names(&transformed)
+                    ));
+                    library = transformed;
+                }
+                Err(diagnostics) => {
+                    verif_trace::emit(format!(
+                        "{{\"ev\":\"xform\",\"stage\":\"{}\",\"ok\":false,\"decls\":[],\"codes\":{}}}",
+                        stage,
+                        verif_trace::codes(&diagnostics)
+                    ));
+                    return Err(diagnostics);
+                }
+            }
+        }
+        return Ok(library);
+    }
+
+    #[cfg(not(ironplc_verif))]
     for xform in xforms {
         library = xform(library)?
     }
 
+    #[cfg(not(ironplc_verif))]
     Ok(library)
 }
 
@@ -87,14 +183,31 @@ pub(crate) fn semantic(library: &Library) -> SemanticResult {
     ];
 
     let mut all_diagnostics = vec![];
+    #[cfg(ironplc_verif)]
+    let mut verif_rule_index = 0;
     for func in functions {
         match func(library) {
             Ok(_) => {
                 // Nothing to do here
+                #[cfg(ironplc_verif)]
+                verif_trace::emit(format!(
+                    "{{\"ev\":\"rule\",\"index\":{},\"codes\":[]}}",
+                    verif_rule_index
+                ));
             }
             Err(diagnostics) => {
+                #[cfg(ironplc_verif)]
+                verif_trace::emit(format!(
+                    "{{\"ev\":\"rule\",\"index\":{},\"codes\":{}}}",
+                    verif_rule_index,
+                    verif_trace::codes(&diagnostics)
+                ));
                 all_diagnostics.extend(diagnostics);
             }
+        }
+        #[cfg(ironplc_verif)]
+        {
+            verif_rule_index += 1;
         }
     }
 
